@@ -2,7 +2,7 @@
 // Everything in /verif/shims is an ASSUMED contract on a dependency or on std (DESIGN.md §2.2); each
 // `external_body`, `assume_specification` and `axiom` here is listed in evidence under trusted_base.
 pub mod shim_prelude {
-    pub use crate::{base64, ring, hex, generic_array, digest, blake2, chacha20, ed25519_dalek, p384, sha2, hmac, aes, chacha20poly1305};
+    pub use crate::{base64, ring, hex, generic_array, digest, blake2, chacha20, ed25519_dalek, p384, sha2, hmac, aes, chacha20poly1305, serde_json, serde, erased_serde, time, iso8601};
     pub use crate::glue::*;
     pub use crate::cryptospec;
     pub use crate::pspec;
